@@ -77,7 +77,9 @@ def json_val(depth=2):
 
 # values whose shape at the SAME path is a list of lists in one notebook and a list of objects in another
 SHAPES = [[[1], [2]], [[1], [2, 3]], [{"a": 1}, {"a": 2}], [{"a": 1}, {"b": 2}], [[1], {"a": 1}], [1, 2], [1.0, 2], ["x", "y"],
-          {"k": [[1]]}, {"k": [{"a": 1}]}]
+          {"k": [[1]]}, {"k": [{"a": 1}]},
+          # runs of repeated items (shrinking such a list has a common prefix and suffix that overlap)
+          [0, 0, 0, 1], ["x", "y", "x", "y"], [[1], [1], [1], [2]], [{"a": 1}, {"a": 1}, {"a": 1}]]
 
 
 @st.composite
@@ -176,6 +178,15 @@ def enable_long_texts(on=True):
 
 
 @st.composite
+def traceback_lines(draw):
+    """Frames of an error traceback; recursion errors repeat the same frames many times."""
+    frames = [_line(draw, CODE_LINES) for _ in range(draw(st.integers(0, 3)))]
+    if frames and draw(st.sampled_from([True, False, False])):
+        frames = (frames * draw(st.integers(2, 3)))[:8]
+    return frames
+
+
+@st.composite
 def long_text(draw, target):
     lines = []
     n = 0
@@ -198,7 +209,7 @@ def output(draw):
     if k == "error":
         return {"output_type": "error", "ename": draw(st.sampled_from(["ValueError", "KeyError"])),
                 "evalue": draw(st.sampled_from(["bad", "worse", ""])),
-                "traceback": [_line(draw, CODE_LINES) for _ in range(draw(st.integers(0, 3)))]}
+                "traceback": draw(traceback_lines())}
     o = {"output_type": k, "data": draw(mimebundle()), "metadata": draw(free_metadata(1))}
     if k == "execute_result":
         o["execution_count"] = draw(st.sampled_from([None, 1, 2, 3]))
@@ -373,7 +384,15 @@ def edit_output(draw, o):
         elif w == "ename":
             o["ename"] = "TypeError"
         else:
-            o["traceback"] = o["traceback"] + [_line(draw, CODE_LINES)]
+            tb = list(o["traceback"])
+            op = draw(st.sampled_from(["append", "delete", "insert", "delete"]))
+            if op == "delete" and tb:
+                del tb[draw(st.integers(0, len(tb) - 1))]
+            elif op == "insert" and tb:
+                tb.insert(draw(st.integers(0, len(tb))), draw(st.sampled_from(tb)))
+            else:
+                tb.append(_line(draw, CODE_LINES))
+            o["traceback"] = tb
     else:
         w = draw(st.sampled_from(["data", "data", "bundle", "meta", "ec"]))
         if w == "data" and not o["data"]:
@@ -466,6 +485,20 @@ def edit_cell(draw, c, minor, kinds=None, n_edits=None):
                     c.pop("attachments", None)
                 elif op == "new" or "attachments" not in c:
                     c["attachments"] = draw(attachments())
+                elif op == "change" and c["attachments"] and draw(st.booleans()):
+                    # same file name, other renditions: a mime type is added / dropped / swapped
+                    a = c["attachments"]
+                    k = draw(st.sampled_from(sorted(a)))
+                    bundle = dict(a[k])
+                    w = draw(st.sampled_from(["add", "swap", "drop"]))
+                    if w == "add" or not bundle:
+                        bundle[draw(st.sampled_from(["image/jpeg", "image/svg+xml", "text/plain"]))] = draw(st.sampled_from([B64C, "<svg></svg>", "alt text"]))
+                    elif w == "swap":
+                        old = sorted(bundle)[0]
+                        bundle[draw(st.sampled_from([m for m in ("image/jpeg", "image/gif", "image/png") if m != old]))] = bundle.pop(old)
+                    elif len(bundle) > 1:
+                        del bundle[sorted(bundle)[-1]]
+                    a[k] = bundle
                 else:
                     a = c["attachments"]
                     k = draw(st.sampled_from(["a.png", "b.png", "c.png"]))
@@ -603,10 +636,29 @@ def _forced_conflict(draw, base):
     minor = base["nbformat_minor"]
     n = len(base["cells"])
     shape = draw(st.sampled_from(["del_vs_edit", "edit_vs_del", "both_edit_source", "both_edit_outputs", "both_edit_meta",
-                                  "both_insert_same_pos", "both_insert_similar", "insert_next_to_edit", "insert_next_to_del",
+                                  "both_insert_same_pos", "both_insert_similar", "both_insert_runs", "both_insert_runs", "insert_next_to_edit", "insert_next_to_del",
                                   "both_append_nonl", "both_attach", "both_nbmeta", "both_minor", "both_del", "both_ec",
-                                  "both_same_edit", "both_edit_same_output", "both_edit_same_output", "transient_meta", "type_vs_edit", "type_vs_edit", "type_vs_edit", "both_rerun", "both_rerun", "two_outputs", "two_outputs", "both_insert_block"]))
+                                  "both_same_edit", "both_edit_same_output", "both_edit_same_output", "transient_meta", "type_vs_edit", "type_vs_edit", "type_vs_edit", "both_rerun", "both_rerun", "both_rerun", "both_rerun", "two_outputs", "two_outputs", "both_insert_block"]))
     usedl, usedr = _ids(l), _ids(r)
+    if shape == "both_insert_runs":
+        # both sides insert a RUN of cells at one position: unrelated leading cells (different counts on the two sides),
+        # then a pair of similar-but-not-identical cells, optionally identical trailing cells
+        pos = draw(st.integers(0, n))
+
+        def fresh(used, stem):
+            return draw(cell(minor, _fresh_id(used, stem) if minor >= 5 else None))
+        nl, nr = draw(st.sampled_from([(1, 2), (1, 2), (2, 1), (2, 1), (1, 1), (0, 1), (1, 0), (2, 2), (1, 3), (0, 2)]))
+        lead_l = [fresh(usedl, "Ln") for _ in range(nl)]
+        lead_r = [fresh(usedr, "Rn") for _ in range(nr)]
+        sim_l = fresh(usedl, "Ls")
+        sim_l["source"] = (sim_l["source"] or "") + "shared_line_one = 1\nshared_line_two = 2\nshared_line_three = 3\n"
+        sim_r = draw(edit_cell(sim_l, minor, ["source"], n_edits=1))
+        if "id" in sim_r:
+            sim_r["id"] = _fresh_id(usedr, "Rs")
+        tail = [fresh(usedl, "Lt")] if draw(st.sampled_from([True, False, False])) else []
+        l["cells"][pos:pos] = lead_l + [sim_l] + copy.deepcopy(tail)
+        r["cells"][pos:pos] = lead_r + [sim_r] + copy.deepcopy(tail)
+        return l, r, shape
     if n == 0 or shape in ("both_insert_same_pos", "both_insert_similar"):
         i = draw(st.integers(0, n))
         cl = draw(cell(minor, _fresh_id(usedl, "Ln") if minor >= 5 else None))
